@@ -220,7 +220,9 @@ func (it *Iterator) Value() []byte {
 
 // Valid returns true if the iterator is positioned at a valid entry
 func (it *Iterator) Valid() bool {
-	return it.currentKey != nil && len(it.currentKey) > 0
+	// A decoded key is never nil, also when it is the empty key: nil alone means
+	// "no current entry"
+	return it.currentKey != nil
 }
 
 // IsTombstone returns true if the current entry is a deletion marker
